@@ -65,9 +65,9 @@ let () =
          let arg = if sp >= String.length line then Li [] else parse line pos in
          print out (run (bytes_of_string op) arg)
        with
-       | Parse m -> Buffer.add_string out ("(-1 100) ; parse error: " ^ m)
-       | Stack_overflow -> Buffer.add_string out "(-1 101)"
-       | e -> Buffer.add_string out ("(-1 102) ; " ^ Printexc.to_string e));
+       | Parse m -> Buffer.add_string out ("(#21657272 100) ; parse error: " ^ m)
+       | Stack_overflow -> Buffer.add_string out "(#21657272 101)"
+       | e -> Buffer.add_string out ("(#21657272 102) ; " ^ Printexc.to_string e));
       print_string (Buffer.contents out);
       print_newline ()
     done
